@@ -26,7 +26,11 @@ var codes = map[string]int{
 	"set:closed": 60, "set:running": 61, "read:running": 62, "read:closed": 63,
 	"set:slot": 64, "read:slot": 65, "set:readIndex": 66, "set:writeIndex": 67,
 	"RLock": 6, "RUnlock": 7, "TryLock": 8, "unknown-sync": 99,
+	"<-param.Done": 24, "<-recv.ctx.Done": 25, "func{": 70, "}func": 71,
 }
+
+// closures that are called on the spot (func() int {...}()) are plain code, not callbacks
+var isImmediatelyCalled = map[*ast.FuncLit]bool{}
 
 type walker struct {
 	recv    string
@@ -52,6 +56,11 @@ func selName(e ast.Expr) (string, string) {
 }
 
 func (w *walker) call(c *ast.CallExpr) {
+	if fl, ok := c.Fun.(*ast.FuncLit); ok {
+		isImmediatelyCalled[fl] = true
+		w.block(fl.Body)
+		return
+	}
 	for _, a := range c.Args {
 		w.expr(a)
 	}
@@ -126,9 +135,37 @@ func (w *walker) expr(e ast.Expr) {
 		w.call(x)
 	case *ast.UnaryExpr:
 		if x.Op == token.ARROW {
+			// receiving from a context: the callback's own context argument, or a context kept in the receiver
+			if c, ok := x.X.(*ast.CallExpr); ok {
+				if sel, ok := c.Fun.(*ast.SelectorExpr); ok && sel.Sel.Name == "Done" {
+					switch sel.X.(type) {
+					case *ast.Ident:
+						w.emit("<-param.Done")
+						return
+					case *ast.SelectorExpr:
+						w.emit("<-recv.ctx.Done")
+						return
+					}
+				}
+			}
 			w.emit("<-ch")
 		}
 		w.expr(x.X)
+	case *ast.CompositeLit:
+		for _, el := range x.Elts {
+			if kv, ok := el.(*ast.KeyValueExpr); ok {
+				w.expr(kv.Value)
+			} else {
+				w.expr(el)
+			}
+		}
+	case *ast.FuncLit:
+		// a closure handed to somebody else (a callback): its body is part of the skeleton, bracketed
+		if !isImmediatelyCalled[x] {
+			w.emit("func{")
+			w.block(x.Body)
+			w.emit("}func")
+		}
 	case *ast.BinaryExpr:
 		w.expr(x.X)
 		w.expr(x.Y)
@@ -305,6 +342,9 @@ func main() {
 		{"skel_recv_run", "pkg/rtpreceiver", "Receiver", "run"},
 		{"skel_send_close", "pkg/rtpsender", "Sender", "Close"},
 		{"skel_send_run", "pkg/rtpsender", "Sender", "run"},
+		// the write queue inside its callers (C16): the OnError callback they hand to the processor
+		{"skel_ss_create_writer", ".", "ServerSession", "createWriter"},
+		{"skel_cl_create_writer", ".", "Client", "createWriter"},
 	}
 	fmt.Println("(* GENERATED by tools/syncskel from /repo on every check run. Do not edit. *)")
 	fmt.Println("From Coq Require Import NArith List. Import ListNotations. Open Scope N_scope.")
